@@ -157,7 +157,9 @@ class FlowFields(ImageBatch):
             torch.tensor_split,
             Tensor.tensor_split,
         ):
-            return tuple(cls._torch_function_result(func, res, grid, axes) for res in data)
+            return tuple(
+                cls._torch_function_result(func, res, g, axes) for res, g in zip(data, grid)
+            )
         return cls._torch_function_result(func, data, grid, axes)
 
     @overload
